@@ -1095,7 +1095,7 @@ class Evaluator:
             if t2 == ['eps'] and isinstance(sv2, tuple) and sv2 and sv2[0] == 'adt' and hf.get('kind') == 'AssocFn':
                 return (v2, pre)
             # a private predicate / observer method without effects (`fn has_remaining(&self) -> bool { self.count < self.slice.len() }`)
-            if t2 == ['eps'] and hf.get('kind') == 'AssocFn' and isinstance(sv2, tuple) and sv2 and sv2[0] in ('bin', 'un', 'lit', 'call'):
+            if t2 == ['eps'] and hf.get('kind') == 'AssocFn' and isinstance(sv2, tuple) and sv2 and sv2[0] in ('bin', 'un', 'lit', 'call', 'matchval', 'ifval'):
                 return (v2, pre)
             if not hasattr(self, '_pure_helpers'):
                 self._pure_helpers = set()
